@@ -319,6 +319,8 @@ pub fn dec_oracles(prop: &str, tier: Tier) -> Oracles {
         "C10" => {
             or.conform = true;
             or.encoding_used = true;
+            // "however the first three bytes are split", whatever the sink: sub-minimum capacities too
+            or.submin = true;
         }
         "C18" => or.prefill3 = true,
         "C19" => or.latin1 = Some(if tier == Tier::Quick { 40 } else { 100 }),
